@@ -392,7 +392,9 @@ def core_dump(tier):
 def replay_configs(tier):
     hashers = ["const", "onebit", "default"] if tier == "quick" else \
               ["const", "onebit", "identity", "sip", "default", "siprand"]
-    return [(h, k) for h in hashers for k in ("owned", "borrowed")]
+    # reseed: a hash builder whose clone hashes differently (last, so that [:6] keeps the others)
+    return [(h, k) for h in hashers for k in ("owned", "borrowed")] + \
+           [("reseed", k) for k in (("owned",) if tier == "quick" else ("owned", "borrowed"))]
 
 
 def stage_replay(tier, dump=None, name="replay", universe="3"):
